@@ -9,6 +9,7 @@
 //          first, one token out of order, pop to a depth / re-grow / unwind), model compared after every single step.
 #include <algorithm>
 #include <map>
+#include <unistd.h>
 #include <memory>
 #include <string>
 #include <thread>
@@ -554,6 +555,10 @@ void run_deep(vf::Ctx &c) {
                                                                                  : vf::sfmt("pop-to-depth-%d-regrow-unwind", plan.arg).c_str());
   reset_real_stack();
   c.stage("deep:attach");
+  // A deep execution takes milliseconds. If the code under test spins (Detach's pop loop never terminates when a frame
+  // it is looking for has been lost) the verdict should not wait for the core's 30 s alarm (120 s in the confirming
+  // replays): this part shortens the watchdog of its own executions to 10 s. The core re-arms / clears it afterwards.
+  alarm(10);
   size_t max_capacity = 0;
   {
     StackWorld w;
@@ -616,19 +621,19 @@ void run_deep(vf::Ctx &c) {
       int id = h.id;
       std::string what;
       if (h.scope) {
-        c.stage("deep:~Scope");
+        c.stage("deep:unwind");
         h.scope.reset();
         w.model_detach(id);
         h.done = true;
         what = vf::sfmt("~Scope of attach #%zu", t + 1);
       } else if (by == 1) {
-        c.stage("deep:~Token");
+        c.stage("deep:unwind");
         h.tok.reset();
         w.model_detach(id);
         h.done = true;
         what = vf::sfmt("~Token of attach #%zu", t + 1);
       } else {
-        c.stage("deep:Detach");
+        c.stage("deep:unwind");
         bool got = RuntimeContext::Detach(*h.tok);
         bool found = w.model_detach(id);
         what = vf::sfmt("Detach(token of attach #%zu) = %d", t + 1, int(got));
